@@ -371,3 +371,20 @@ Proof.
   assert (M1 : cnt fM (rg_thr g) <= 1) by (rewrite M; destruct (rg_m g); cbn; lia).
   split; [lia|]. split; [lia|]. split; [exact X | exact W].
 Qed.
+
+(* C12, every schedule: while a writer is announced (WRITER_BIT set: a write() past the inner mutex, an upgrade in
+   progress, or a write guard alive) no reader gets in: the compare_exchange of try_read / read() — attempted with any
+   expected value that has the bit clear, however stale — fails and changes nothing *)
+Theorem rw_sched_writer_blocks_readers n sched i c :
+  let g := rrun_s n sched in
+  1 <= cnt fA (rg_thr g) -> rstep g i (RReadCas c) = g.
+Proof.
+  intros g A. destruct (rrun_RExcl n sched) as (W & M & T & X). fold g in W, M, T, X.
+  pose proof (roles_le_mutex _ T) as (RL & WL).
+  assert (M1 : cnt fM (rg_thr g) <= 1) by (rewrite M; destruct (rg_m g); cbn; lia).
+  assert (A1 : cnt fA (rg_thr g) = 1) by lia.
+  unfold rstep. destruct (nth_error (rg_thr g) i) as [t|]; [|reflexivity].
+  destruct ((c mod 2 =? 0) && (rg_w g =? c)) eqn:E; [|reflexivity]. exfalso.
+  apply Bool.andb_true_iff in E. destruct E as (E1 & E2). apply N.eqb_eq in E1, E2. rewrite <- E2 in E1. rewrite W, A1 in E1.
+  rewrite N.add_comm, N.mul_comm, N.mod_add in E1 by lia. discriminate.
+Qed.
